@@ -5,7 +5,7 @@
    header is a generic wire message, so fields no schema knows are ordinary
    entries of the theorems' quantifiers. *)
 From Coq Require Import NArith List Bool.
-From NP Require Import Model.PyBase Model.Varint Model.Wire Model.IWA
+From NP Require Import Gen.GenIWA Model.PyBase Model.Varint Model.Wire Model.IWA
   Proofs.VarintP Proofs.WireP Proofs.IWAP Proofs.IWASegP.
 Import ListNotations.
 Open Scope N_scope.
@@ -66,6 +66,13 @@ Theorem encoded_is_iwa : forall (uncompress : bytes -> option bytes) (compress :
 Proof. exact to_chunks_is_iwa. Qed.
 Print Assumptions encoded_is_iwa.
 
+(* the (repaired) sniffer accepts exactly the byte strings that are a sequence of frames:
+   marker byte 0, 3-byte little-endian length, that many payload bytes - and never raises *)
+Theorem is_iwa_iff : forall data, Forall (fun x => x < 256) data ->
+  (is_iwa_file true data = Ok true <-> exists ps, data = concat (map framed ps) /\ Forall small ps).
+Proof. exact is_iwa_iff_lemma. Qed.
+Print Assumptions is_iwa_iff.
+
 (* one archive segment: from_buffer inverts to_buffer, the header returned carries
    the rewritten lengths, and those lengths are the message sizes.
    seg_ok = every message_infos entry is a well-formed message, one entry per
@@ -98,6 +105,16 @@ Theorem set_lengths_idempotent : forall h ls, header_ok h -> length (len_fields 
   set_lengths (set_lengths h ls) ls = set_lengths h ls.
 Proof. exact set_lengths_idem. Qed.
 Print Assumptions set_lengths_idempotent.
+
+(* translator tie: the schema field numbers / types and the framing literals in /repo are the ones the model mirrors *)
+Theorem gen_iwa_constants :
+  [GenIWA.f_identifier; GenIWA.f_message_infos; GenIWA.f_should_merge;
+   GenIWA.f_mi_type; GenIWA.f_mi_length; GenIWA.f_mi_base_message_index] = IWA.modelled_fields /\
+  GenIWA.ints_to_buffer = IWA.modelled_ints_to_buffer /\
+  GenIWA.ints_decompress_all = IWA.modelled_ints_unframe /\
+  GenIWA.ints_is_iwa_file = IWA.modelled_ints_unframe.
+Proof. repeat split; reflexivity. Qed.
+Print Assumptions gen_iwa_constants.
 
 (* ---------- non-vacuity ---------- *)
 (* a toy codec satisfying both snappy hypotheses: one marker byte in front *)
